@@ -341,6 +341,37 @@ func sequential(threads ...func()) bool {
 	return false
 }
 
+// serialRefs returns the outcomes of running the threads one after another in every
+// order: for scenarios whose operations commute they are all equal; where they do not (a
+// write into a range a concurrent delete covers) each order is a legal serial result.
+func serialRefs(t *testing.T, b schedx.Body, n int) map[string]bool {
+	out := map[string]bool{}
+	perm := make([]int, n)
+	for i := range perm {
+		perm[i] = i
+	}
+	var rec func(k int)
+	rec = func(k int) {
+		if k == n {
+			p := append([]int{}, perm...)
+			out[b(t, func(threads ...func()) bool {
+				for _, i := range p {
+					threads[i]()
+				}
+				return false
+			})] = true
+			return
+		}
+		for i := k; i < n; i++ {
+			perm[k], perm[i] = perm[i], perm[k]
+			rec(k + 1)
+			perm[k], perm[i] = perm[i], perm[k]
+		}
+	}
+	rec(0)
+	return out
+}
+
 // TestRace is the free-running pass: the same scenario bodies, real sync primitives, built
 // with -race. The cooperative scheduler's hand-offs are happens-before edges that blind the
 // race detector, so unsynchronised accesses are looked for here (sampling, not exhaustive).
@@ -386,13 +417,14 @@ func TestCheck(t *testing.T) {
 		type ritem struct {
 			name string
 			body schedx.Body
+			n    int
 		}
 		var ritems []ritem
 		for _, sc := range dscenarios(quick) {
-			ritems = append(ritems, ritem{sc.name, dbody(sc)})
+			ritems = append(ritems, ritem{sc.name, dbody(sc), len(sc.threads)})
 		}
 		for _, sc := range scs {
-			ritems = append(ritems, ritem{sc.name, body(sc)})
+			ritems = append(ritems, ritem{sc.name, body(sc), len(sc.threads)})
 		}
 		for _, sc := range ritems {
 			if sc.name != v.Scenario {
@@ -404,9 +436,10 @@ func TestCheck(t *testing.T) {
 				fmt.Sscan(f, &n)
 				prefix = append(prefix, n)
 			}
+			refs := serialRefs(t, sc.body, sc.n)
 			ref := sc.body(t, sequential)
 			_, out, dl := schedx.RunOnce(t, schedx.Config{Body: sc.body}, prefix)
-			if dl || out != ref {
+			if dl || !refs[out] {
 				vv := vk.Violationf(v.Fingerprint, "replayed schedule: outcome %q, serial reference %q", out, ref)
 				vv.Scenario, vv.Trace = v.Scenario, v.Trace
 				r.Report(vv)
@@ -428,19 +461,21 @@ func TestCheck(t *testing.T) {
 		name    string
 		body    schedx.Body
 		threads any
+		n       int
 	}
 	var items []item
 	for _, sc := range dscenarios(quick) {
-		items = append(items, item{sc.name, dbody(sc), sc.threads})
+		items = append(items, item{sc.name, dbody(sc), sc.threads, len(sc.threads)})
 	}
 	for _, sc := range scs {
-		items = append(items, item{sc.name, body(sc), sc.threads})
+		items = append(items, item{sc.name, body(sc), sc.threads, len(sc.threads)})
 	}
 	for i, sc := range items {
 		if o := os.Getenv("C09_ONLY"); o != "" && !strings.HasPrefix(sc.name, o) {
 			continue
 		}
 		ref := sc.body(t, sequential)
+		refs := serialRefs(t, sc.body, sc.n)
 		if os.Getenv("C09_DEBUG") != "" {
 			fmt.Fprintf(os.Stderr, "REF %s: %s\n", sc.name, ref)
 			s0, _, _ := schedx.RunOnce(t, schedx.Config{Body: sc.body}, nil)
@@ -456,7 +491,7 @@ func TestCheck(t *testing.T) {
 				if dl {
 					return &viol{vk.Violationf("deadlock:"+sc.name[:2], "deadlock under schedule %v: %s", choices, out), choices}
 				}
-				if out != ref {
+				if !refs[out] {
 					kind := "not-serialisable"
 					if strings.Contains(out, "panic") {
 						kind = "panic"
